@@ -110,6 +110,23 @@ def check(case):
         la, lb = [x["line"] for x in a.files[suf]], [x["line"] for x in b.files[suf]]
         req(la == lb, "id-filter-differs-from-restricted-files",
             f"-qId {sel_q + T['ghost_q']} -rId {sel_r + T['ghost_r']}: file {suf} has {len(la)} records, run on physically restricted files {len(lb)} (or different content)")
+    # 6. self-alignment (one file named as reference and as query): an id filter on one side vs the other side given
+    #    as a physically restricted file
+    mols = [m for m in case["queries"] if m["labels"]][:4]
+    if len(mols) >= 2:
+        sel = [m["id"] for m, k in zip(mols, T["sel_q"]) if k] or [mols[0]["id"]]
+        self_case = dict(case, refs=mols, queries=mols, same_file=True)
+        a = run2(dict(self_case, args=dict(args, **{"-qId": sel})), "self-alignment with -qId")
+        b = run2(dict(case, refs=mols, queries=[m for m in mols if m["id"] in sel]), "self-alignment, query file physically restricted")
+        c = run2(dict(self_case, args=dict(args, **{"-rId": sel})), "self-alignment with -rId")
+        e = run2(dict(case, refs=[m for m in mols if m["id"] in sel], queries=mols), "self-alignment, reference file physically restricted")
+        for x, y, what in ((a, b, f"-qId {sel}"), (c, e, f"-rId {sel}")):
+            req(set(x.files) == set(y.files), "id-filter-file-set", f"self-alignment {what}: different file sets")
+            for suf in x.files:
+                la, lb = [r["line"] for r in x.files[suf]], [r["line"] for r in y.files[suf]]
+                req(la == lb, "id-filter-differs-from-restricted-files",
+                    f"one file given as reference and as query, {what}: file {suf} has {len(la)} records, the run on a physically restricted file {len(lb)} (or different content)")
+        cl.append("self-alignment")
     cl.append("ghost-ids" if T["ghost_q"] or T["ghost_r"] else "no-ghost-ids")
     if len(sel_r) < len(case["refs"]):
         cl.append("reference-subset")
@@ -126,7 +143,7 @@ def _perm(n, mul, add):
 
 @st.composite
 def strategy(draw):
-    case = draw(gen_maps.pipeline_case(max_queries=7, min_queries=2, weight_default=5,
+    case = draw(gen_maps.pipeline_case(flank_repeat=1, max_queries=7, min_queries=2, weight_default=5,
                                        kinds=["exact", "noisy", "stretched", "indel", "chimeric", "partial", "partial", "repeat", "short", "unrelated"]))
     nq, nr = len(case["queries"]), len(case["refs"])
     used = {q["id"] for q in case["queries"]}
